@@ -299,20 +299,30 @@ def prove(pc, goal, timeout_ms, cross=False, light=False, inputs=None):
         sr = refute_with_line_abstraction(pc, g, inputs)
         if sr is not None:
             return 'failed', 'z3-5.1(line abstraction with witnesses)', time.time() - t0, sr.model(), ''
-        if timeout_ms > 1000:
+        if nl:
+            # non-linear goal: NO long in-process attempt (nlsat ignores its limits: a 15 s check was seen to run for 15 minutes
+            # with two workers stuck); the depth-2 slice and the whole query go to fresh processes that are killed on time
+            sl2 = [sl for depth, sl in relevant_slices(pc, g, 2) if depth == 2]
+            for sl in sl2:
+                so_ = z3.Solver()
+                so_.add(*sl)
+                so_.add(z3.Not(g))
+                if run_z3_cli(so_.to_smt2(), 10, wall_s=15) == 'unsat':
+                    return 'discharged', 'z3-5.1(fresh process, relevant hypotheses, depth 2)', time.time() - t0, None, ''
+        elif timeout_ms > 1000:
             so, r = attempt(min(4000, timeout_ms))
     if r == z3.unknown:
         # the same query in a FRESH solver process (z3 5.1 command line on the exported SMT-LIB text): the in-process
         # context has accumulated the terms of the whole exploration, and queries that take 0.2 s in a clean context were
         # seen to need minutes (or time out) there
-        res = run_z3_cli(so.to_smt2(), max(5, timeout_ms // 1000), wall_s=(60 if nl else None))
+        res = run_z3_cli(so.to_smt2(), max(5, timeout_ms // 1000), wall_s=(40 if nl else None))
         if res == 'unsat':
             return 'discharged', 'z3-5.1(fresh process)', time.time() - t0, None, ''
     if r == z3.unknown:
         sr = refute_by_sampling(pc, g, inputs)
         if sr is not None:
             return 'failed', 'z3-5.1(sampled geometry)', time.time() - t0, sr.model(), ''
-        if timeout_ms > 4000:
+        if timeout_ms > 4000 and not nl:
             so, r = attempt(timeout_ms)
     dt = time.time() - t0
     if r == z3.unsat:
@@ -323,6 +333,13 @@ def prove(pc, goal, timeout_ms, cross=False, light=False, inputs=None):
         status, backend, model, reason = 'undecided', 'z3-5.1', None, so.reason_unknown()
         if light:
             return status, backend, dt, model, reason
+        if nl:
+            # second opinions from the external solvers only (hard kill); no in-process retry for non-linear goals
+            others = run_external(so.to_smt2(), 20)
+            for name, res in others.items():
+                if res == 'unsat':
+                    return 'discharged', name, time.time() - t0, None, ''
+            return status, backend, time.time() - t0, model, reason
         # a time-out under load must not flip a verdict: one more one-shot attempt with a 4x budget and another seed
         so2 = z3.Solver()
         so2.set('rlimit', int(timeout_ms * 4 * RL))
